@@ -35,19 +35,21 @@ def run(ctx):
     exe = L.build()
     model = C.build_model(ID)
     variant = L.tree_variant(exe)
+    inj = L.tree_inject_variant(exe)
     known_ids = _known_ids(ctx)
     rng = ctx.rng
     thorough = ctx.tier == "thorough" or not ctx.proof_ok
     ncases = 4000 if thorough else 500
     # The injection stream (a process that is not the peer writes to an accepted connection's abstract request
-    # address, socket transport) fails the monitor on every tree: it is generated only when that finding is listed in
-    # known_findings.json (then counted under KNOWN-FINDING) or when VERIF_C05_INJECT=1 forces it.
-    inject = INJECT_ID in known_ids or os.environ.get("VERIF_C05_INJECT") == "1"
+    # address, socket transport) fails the monitor on a tree without fixes/C05-sock-request-sender-check.patch: there
+    # it is generated only when that finding is listed in known_findings.json (then counted under KNOWN-FINDING) or
+    # when VERIF_C05_INJECT=1 forces it.  On a tree with the sender check it is always generated and must be silent.
+    inject = inj == "filtered" or INJECT_ID in known_ids or os.environ.get("VERIF_C05_INJECT") == "1"
     cases = L.corpus(inject)
     ncorp = len(cases)
     for i in range(ncases):
         cases.append(L.gen_case(rng, inject=inject and i % 4 == 0))
-    impl, mod = L.execute(cases, exe, model, variant)
+    impl, mod = L.execute(cases, exe, model, variant, inj)
     stats = {"peers": 0, "accepted": 0, "refused": 0, "auth_set": 0, "eff_differs_from_real": 0, "fs_calls": 0,
              "census_lines": 0, "msg_callbacks": 0, "raw_clients": 0, "connect_eacces": 0}
     by_tr, by_umask, by_mode, by_dec = {}, {}, {}, {}
@@ -107,17 +109,31 @@ def run(ctx):
         def fails(sub):
             if not sub or not sub[0].startswith("svc ") or sub[-1] != "end":
                 return False
-            im, mo = L.execute([sub], exe, model, variant)
+            im, mo = L.execute([sub], exe, model, variant, inj)
             j = L.judge(im[0], mo[0], known_ids)
             return j is not None and j[0] == kind
         small = C.shrink_list(case, fails, budget=40) if len(res.violations) < 2 else case
-        im, mo = L.execute([small], exe, model, variant)
+        im, mo = L.execute([small], exe, model, variant, inj)
         j = L.judge(im[0], mo[0], known_ids) or v
         res.violation(j[0], j[1], {"script": small, "shrunk_from_ops": len(case), "impl_out": im[0][0][-80:],
                                    "model_out": mo[0][0][-80:], "detail": j[2], "model_variant": variant,
                                    "replay_cmd": "./check C05 --replay <this file>"})
         if len(res.violations) >= 6:
             break
+    # fault sweep: implementation side only (the model has no failing open/mkdtemp/chmod; see report)
+    fcases = L.fault_cases([5, 28, 1] if thorough else [28])
+    fimpl = C.run_cases(exe, ["\n".join(c) + "\n" for c in fcases], timeout=900)
+    fstats = {}
+    for ci, case in enumerate(fcases):
+        msg, what = L.monitor_fault(fimpl[ci][0], fimpl[ci][1])
+        fstats[what] = fstats.get(what, 0) + 1
+        res.add_case(tuple(case), what != "no-failure")
+        if msg is None:
+            res.traces_validated += 1
+        elif len(res.violations) < 6:
+            res.violation("impl-monitor", "fault sweep: " + msg, {"script": case, "impl_out": fimpl[ci][0][-60:],
+                                                                  "fault_sweep": True,
+                                                                  "replay_cmd": "./check C05 --replay <this file>"})
     res.rule = ("lab scripts over {transport shm|socket; daemon umask 022 077 0 027 002 0277; 1..8 peers per case with real "
                 "and effective uid/gid drawn from {0, 1, 1000, 65534} (30% with effective != real); accept behaviour = "
                 "decision in {0, -EACCES, -EAGAIN, -1, -ENOMEM, 1, -EIO, -ENOTCONN, 7} and optional auth_set(uid, gid, mode) with "
@@ -129,7 +145,8 @@ def run(ctx):
                 "non-trivial when the accept callback ran at least once; distinct = distinct scripts")
     res.samples = [{"script": c} for c in cases[:2] + cases[ncorp:ncorp + 2]]
     res.extra = {"case_kinds": {"corpus": ncorp, "random": ncases}, "model_variant": variant,
-                 "tree_carries_fix_C05": variant == "fixed", "injection_stream_generated": inject, "by_transport": by_tr, "by_umask": by_umask,
+                 "tree_carries_fix_C05": variant == "fixed", "injection_stream_generated": inject, "fault_sweep_outcomes": fstats, "foreign_datagrams": inj,
+                 "tree_carries_fix_C05_sender_check": inj == "filtered", "by_transport": by_tr, "by_umask": by_umask,
                  "auth_set_modes": by_mode, "decisions": by_dec, "totals": stats,
                  "kernel_oracle_when_effective_differs_from_real": scm,
                  "monitor": "independent Python statement of C05 over the syscall/census log (vlib/ipcadmit.py: monitor) "
@@ -159,8 +176,19 @@ def replay(ctx, payload):
     exe = L.build()
     model = C.build_model(ID)
     variant = L.tree_variant(exe)
+    inj = L.tree_inject_variant(exe)
     case = payload["script"]
-    im, mo = L.execute([case], exe, model, variant)
+    if payload.get("fault_sweep"):
+        r = C.run_cases(exe, ["\n".join(case) + "\n"], timeout=120)
+        msg, what = L.monitor_fault(r[0][0], r[0][1])
+        print("impl :", r[0][0][-40:])
+        if msg:
+            print("VIOLATION property=%s replay=%s" % (ID, "<replayed>"))
+            print("DETAIL: impl-monitor: fault sweep: %s" % msg)
+            return 1
+        print("replay: property holds on this script now (%s)" % what)
+        return 0
+    im, mo = L.execute([case], exe, model, variant, inj)
     j = L.judge(im[0], mo[0], _known_ids(ctx))
     print("impl :", im[0][0][-60:])
     print("model:", mo[0][0][-60:])
